@@ -227,19 +227,122 @@ def run(tier="quick", seed=0):
         cur_src[0] = loopir_src(t)
         check("comp_e", str(t), text, lev(t), prem_l, replay_l)
 
+    # ---------------- window struct construction (window_struct_fields)
+    # For w = base[idx...]: the data pointer is base + sum_k lo_k * stride_k and the
+    # struct's strides are the strides of the *interval* dimensions, in order.
+    import re as _re
+    from exo.core.memory import DRAM
+    n0, n1, n2, bx = Sym("n0"), Sym("n1"), Sym("n2"), Sym("bx")
+    cname.update({n0: "n0", n1: "n1_1", n2: "n2", bx: "bx_3"})
+    win_cases = 0
+    for rank in (1, 2, 3):
+        dims_syms = [n0, n1, n2][:rank]
+        for base_is_win in (False, True):
+            dims = [LoopIR.Read(d, [], T.size, SRC) for d in dims_syms]
+            base_t = T.Tensor(dims, base_is_win, T.f32)
+            for pat in itertools.product("PI", repeat=rank):
+                if "I" not in pat:
+                    continue
+                for lo_kind in ("var", "const"):
+                    idx, los = [], []
+                    for d, k in enumerate(pat):
+                        lo = LoopIR.Read(x, [], T.index, SRC) if (lo_kind == "var" and d == 0) else LoopIR.Const(d + 1, T.int, SRC)
+                        los.append(lo)
+                        if k == "P":
+                            idx.append(LoopIR.Point(lo, SRC))
+                        else:
+                            idx.append(LoopIR.Interval(lo, LoopIR.BinOp("+", lo, LoopIR.Const(2, T.int, SRC), T.index, SRC), SRC))
+                    as_t = T.Tensor([LoopIR.Const(2, T.int, SRC)] * pat.count("I"), True, T.f32)
+                    we = LoopIR.WindowExpr(bx, idx, T.Window(base_t, as_t, bx, idx), SRC)
+                    c3 = object.__new__(LC.Compiler)
+                    c3._needed_helpers = set()
+                    c3.env = ChainMap({k_: v_ for k_, v_ in cname.items()})
+                    c3.envtyp = ChainMap({bx: base_t, x: T.index, n0: T.size, n1: T.size, n2: T.size})
+                    c3.mems = {bx: DRAM}
+                    c3._known_strides = {}
+                    r3 = object.__new__(IndexRangeEnvironment)
+                    r3.proc, r3.env = None, ChainMap({x: (0, 7), n0: (1, None), n1: (1, None), n2: (1, None)})
+                    c3.range_env = r3
+                    desc = f"window bx[{','.join(pat)}] of a rank-{rank} {'window' if base_is_win else 'tensor'} ({lo_kind} offset)"
+                    try:
+                        dataptr, strides = c3.window_struct_fields(we)
+                    except Exception as e:
+                        undecided.append(f"window_struct_fields raised {type(e).__name__} on {desc}")
+                        continue
+                    # expected strides of the base
+                    if base_is_win:
+                        bstr = [stride_val(bx, d) for d in range(rank)]
+                    else:
+                        bstr = []
+                        for d in range(rank):
+                            t_ = z3.IntVal(1)
+                            for dd in dims_syms[d + 1:]:
+                                t_ = t_ * sym_val(dd)
+                            bstr.append(t_)
+                    prem_w = [sym_val(x) >= 0, sym_val(x) <= 7] + [sym_val(d) >= 1 for d in dims_syms]
+                    m_ = _re.match(r"^([A-Za-z_0-9]+(?:\.data)?)\[(.*)\]$", dataptr)
+                    want_base = cname[bx] + (".data" if base_is_win else "")
+                    if not m_ or m_.group(1) != want_base:
+                        cases += 1
+                        bad += 1
+                        key = "window_struct_fields: data pointer is taken from the C name of the source buffer"
+                        if key not in seen_kinds:
+                            seen_kinds.add(key)
+                            violations.append(dict(obligation=key, confirmed=True, detail=f"{desc} -> {dataptr!r}",
+                                                   replay_script=f"#!/venv/bin/python\nprint({desc!r}, '->', {dataptr!r})\nraise SystemExit(1)\n"))
+                        continue
+                    off_want = z3.IntVal(0)
+                    for d in range(rank):
+                        off_want = off_want + lev_w(los[d], sym_val) * bstr[d]
+                    cur_src[0] = ""
+                    rb = lambda d_, t_, v_, e_, _desc=desc, _dp=dataptr, _st=strides: \
+                        f"#!/venv/bin/python\nprint({_desc!r})\nprint('data pointer:', {_dp!r})\nprint('strides:', {_st!r})\nprint('counter-model:', {v_!r}, {e_!r})\nraise SystemExit(1)\n"
+                    check("window_struct_fields[offset]", desc, m_.group(2), off_want, prem_w, rb)
+                    kept = [d for d, k in enumerate(pat) if k == "I"]
+                    parts = [p_.strip() for p_ in strides.split(", ")] if strides else []
+                    if len(parts) != len(kept):
+                        cases += 1
+                        bad += 1
+                        key = "window_struct_fields: one stride per interval dimension"
+                        if key not in seen_kinds:
+                            seen_kinds.add(key)
+                            violations.append(dict(obligation=key, confirmed=True, detail=f"{desc} -> {strides!r}",
+                                                   replay_script=rb(desc, strides, None, "")))
+                        continue
+                    for p_, d in zip(parts, kept):
+                        check("window_struct_fields[stride]", desc + f" dim {d}", p_, bstr[d], prem_w, rb)
+                    win_cases += 1
+
     return dict(
         obligations=0, discharged=0,
-        functions=["src/exo/backend/LoopIR_compiler.py::Compiler.comp_cir (C text, bounded)",
+        functions=["src/exo/backend/LoopIR_compiler.py::Compiler.window_struct_fields (C text, bounded)",
+                   "src/exo/core/memory.py::Memory.window / generate_offset (C text, bounded)",
+                   "src/exo/backend/LoopIR_compiler.py::Compiler.comp_cir (C text, bounded)",
                    "src/exo/backend/LoopIR_compiler.py::Compiler.comp_e (index arithmetic, C text, bounded)"],
         assumptions=["C integer arithmetic treated as mathematical (no overflow) in emitted index expressions",
                      "exo_floor_div has floor semantics (proved in contracts/c08_floor_div.py)"],
         samples=samples, violations=violations, undecided=undecided,
         bounded=[dict(target="Compiler.comp_cir / comp_e emitted C text == floor semantics",
                       bound=f"all expression trees of depth <= {depth} over +,-,*,/,%,unary-; variable values symbolic",
-                      cases=cases, failed=bad)],
+                      cases=cases, failed=bad),
+                 dict(target="Compiler.window_struct_fields + Memory.window: data pointer offset and kept strides",
+                      bound="source rank 1-3, dense tensor or window, every point/interval pattern, variable or literal offsets; values symbolic",
+                      cases=win_cases, failed=0)],
         clauses={"comp_cir/comp_e: C text evaluates to the expression's value": "refuted" if violations else "discharged"},
         solver_time_s=round(time.time() - t0, 2),
     )
+
+
+def lev_w(e, sym_val):
+    """value of a window offset expression (Read / Const / + of those)"""
+    n = type(e).__name__
+    if n == "Read":
+        return sym_val(e.name)
+    if n == "Const":
+        return z3.IntVal(e.val)
+    if n == "BinOp" and str(e.op) == "+":
+        return lev_w(e.lhs, sym_val) + lev_w(e.rhs, sym_val)
+    raise AssertionError(n)
 
 
 def repr_cir(e):
